@@ -8,7 +8,7 @@ Local Open Scope list_scope.
 (* ------------------------------------------------------------------ client credentials *)
 
 Definition cc_areq (H : string -> string) (c : cc_cfg) : areq :=
-  {| a_key := cc_key H c; a_fresh := (OAllow (cc_result c), 1); a_store := true |}.
+  {| a_key := cc_key H c; a_fresh := (OAllow (cc_result c), 1); a_store := true; a_recheck := OAllow |}.
 
 Lemma cc_exec_aexec H cch c : cc_exec H cch c = aexec cch (cc_areq H c).
 Proof. unfold cc_exec, aexec, cc_areq. simpl. destruct (cc_key H c); reflexivity. Qed.
@@ -53,7 +53,7 @@ Proof.
     destruct (exists_pair_false _ h ca cb G Ia Ib) as [->|[P _]]; [reflexivity|].
     unfold p_cc_F4 in P. unfold cc_key in Ka, Kb.
     destruct (cc_enabled ca) eqn:Ea; [|discriminate]. destruct (cc_enabled cb) eqn:Eb; [|discriminate].
-    simpl in P. f_equal. symmetry. eapply (cc_key_inj H ca cb k); eauto; unfold cc_key; now rewrite ?Ea, ?Eb.
+    simpl in P. f_equal. eapply (cc_key_inj H ca cb k); eauto; unfold cc_key; now rewrite ?Ea, ?Eb.
 Qed.
 
 Definition w_cc (scopes : list string) : cc_cfg :=
@@ -78,7 +78,7 @@ Qed.
 
 Definition jf_areq (H : string -> string) (x : signer * jf_cfg * jreq) : areq :=
   let '(s, c, q) := x in
-  {| a_key := Some (jf_key H s c q); a_fresh := (jf_fresh s c q, 0); a_store := jf_stores c |}.
+  {| a_key := Some (jf_key H s c q); a_fresh := (jf_fresh s c q, 0); a_store := jf_stores c; a_recheck := OAllow |}.
 
 Lemma jf_exec_aexec H s cch c q : jf_exec H s cch c q = aexec cch (jf_areq H (s, c, q)).
 Proof. unfold jf_exec, aexec, jf_areq. simpl. destruct (lookup _ cch); reflexivity. Qed.
